@@ -88,7 +88,8 @@ inline std::string render(const std::vector<Ev>& alphabet, const std::vector<int
     int month = 1, year = 2020;
     for (int e : hist) {
         const Ev& ev = alphabet[e];
-        if (ev.time && ev.text.empty()) { ++month; if (month > 12) { month = 1; ++year; } s += std::string("DATES\n 1 ") + month_name(month) + " " + std::to_string(year) + " /\n/\n"; }
+        if (ev.time && ev.name == "DATES_same") s += std::string("DATES\n 1 ") + month_name(month) + " " + std::to_string(year) + " /\n/\n";      // repeats the date reached: a report step of zero length
+        else if (ev.time && ev.text.empty()) { ++month; if (month > 12) { month = 1; ++year; } s += std::string("DATES\n 1 ") + month_name(month) + " " + std::to_string(year) + " /\n/\n"; }
         else s += ev.text;
     }
     s += "END\n";
